@@ -69,6 +69,16 @@ Proof. exact meaning_preserved. Qed.
 Theorem C08_faithful_is_supported : forall s, supported_faithful s = true -> supported s = true.
 Proof. exact supported_faithful_supported. Qed.
 
+(* in particular the shape schemars emits for [Option<T>] of a referenceable
+   [T] used as a whole body or response type, {$ref: r, nullable: true}, is
+   published with the meaning "null, or what r accepts" *)
+Theorem C08_nullable_reference_kept :
+  forall env pat_ok fmt_ok so name o r,
+    so_reference so = Some r -> ext_nullable (so_extensions so) = true ->
+    j2oas name (SObj so) = Ok o ->
+    forall j, valid_oas env pat_ok fmt_ok o j = is_null j || env r j.
+Proof. exact nullable_reference_kept. Qed.
+
 (* the same for a whole document: the schema at a site read with the published
    components against the type's schema read with its definitions ("nested and
    recursive references") *)
@@ -140,9 +150,12 @@ Proof. exact nothing_added. Qed.
 (* (3) annotations: title (or the supplied name), description, format,
    default, nullable, deprecated, read/write-only, x- extensions, example of a
    converted schema object are those of the source (this includes the null
-   type) *)
+   type).  Beside a [$ref] only [nullable: true] is an annotation (published on
+   a wrapper {allOf: [$ref], nullable: true}); that case is part of
+   [C08_annotations_kept_everywhere]. *)
 Theorem C08_annotations_kept :
   forall b b2 name so d k,
+    so_reference so = None ->
     supported_with b b2 (SObj so) = true -> j2oas name (SObj so) = Ok (OItem d k) ->
     annot_oas d k = annot_js name so.
 Proof. exact annotations_kept_top. Qed.
@@ -211,6 +224,7 @@ Print Assumptions C08_meaning_preserved_refuted.
 Print Assumptions C08_meaning_preserved.
 Print Assumptions C08_faithful_is_supported.
 Print Assumptions C08_fractional_integer_bound_refuted.
+Print Assumptions C08_nullable_reference_kept.
 Print Assumptions C08_document_meaning_preserved.
 Print Assumptions C08_required_kept.
 Print Assumptions C08_enum_kept.
